@@ -16,6 +16,7 @@ import Golib.Proof.C14FlexAlias
 import Golib.Proof.C14Wrap
 import Golib.Proof.C14Trans
 import Golib.Proof.C14Trans2
+import Golib.Proof.C14Trans3
 
 namespace Golib.C14
 
@@ -674,5 +675,97 @@ example : Golib.Gen.Trans.C14.Chunk ([1, 2, 3, 4, 5] : List Int) 2 = .ok [[1, 2]
     Golib.Gen.Trans.C14.Chunk ([1, 2, 3] : List Int) (-4) = .ok [[1, 2, 3]] ∧
     Golib.Gen.Trans.C14.Chunk ([] : List Int) 2 = .ok [] := by
   refine ⟨?_, ?_, ?_, ?_, ?_⟩ <;> decide +kernel
+
+/-! ### Regenerated tie (wave 9), part 2: the membership-map functions translated by `go2lean`
+
+`Diff` / `Intersect` / `Unique` / `UniqueByKey` and their in-place variants build a local
+`map[K]struct{}` and use it as a SET (`m[k] = struct{}{}`, `_, ok := m[k]`, `len(m)`).  The translator
+renders such a map as the list of its distinct keys (insert = cons unless present, lookup = membership,
+len = length): iteration order — the one thing a list has and a Go map has not — is not observable
+through these three operations, every other use of the map stays outside the subset, and `==` of the
+key type is Lean's equality (true of the model's `Int` elements; the `float64`/NaN instantiation is the
+arena model's `ElemEq`, `c14_arena_*`).  The hand-written models use `s2` itself (resp. `mapInsert`)
+as the set; the tie proofs bridge the two by membership (`mkSet_contains`). -/
+
+/-- TIE: the translated `Diff` equals the model's `diff` at every dst layout the translation covers
+(`dst` sharing no memory with the inputs): same returned content, memories untouched, no panic. -/
+theorem c14_trans_Diff (dst s1 s2 : List Int) (d : Dst) (n1 n2 : Bool) (hd : d = .nil ∨ d = .fresh) :
+    Golib.Gen.Trans.C14.Diff dst s1 s2 = resOfOption ((diff d n1 n2 ⟨s1, s2⟩).map fun r => r.res.xs) ∧
+    (diff d n1 n2 ⟨s1, s2⟩).map (fun r => r.mem) = some ⟨s1, s2⟩ :=
+  trans_diff dst s1 s2 d n1 n2 hd
+
+/-- The property clause directly on the regenerated definition. -/
+theorem c14_trans_Diff_spec (dst s1 s2 : List Int) :
+    Golib.Gen.Trans.C14.Diff dst s1 s2 = .ok (s1.filter fun v => !s2.contains v) :=
+  trans_diff_spec dst s1 s2
+
+/-- TIE: the translated `Intersect` equals the model's `intersect` (same layouts). -/
+theorem c14_trans_Intersect (dst s1 s2 : List Int) (d : Dst) (n1 n2 : Bool) (hd : d = .nil ∨ d = .fresh) :
+    Golib.Gen.Trans.C14.Intersect dst s1 s2 = resOfOption ((intersect d n1 n2 ⟨s1, s2⟩).map fun r => r.res.xs) ∧
+    (intersect d n1 n2 ⟨s1, s2⟩).map (fun r => r.mem) = some ⟨s1, s2⟩ :=
+  trans_intersect dst s1 s2 d n1 n2 hd
+
+/-- The property clause directly on the regenerated definition. -/
+theorem c14_trans_Intersect_spec (dst s1 s2 : List Int) :
+    Golib.Gen.Trans.C14.Intersect dst s1 s2 = .ok (s1.filter fun v => s2.contains v) :=
+  trans_intersect_spec dst s1 s2
+
+/-- Non-vacuity: duplicates of `s1` kept, order of `s1`, old `dst` dropped, empty `s2`. -/
+example : Golib.Gen.Trans.C14.Diff [9] ([3, 1, 3, 2, 4] : List Int) [2, 2, 1] = .ok [3, 3, 4] ∧
+    Golib.Gen.Trans.C14.Diff [] ([3, 1] : List Int) [] = .ok [3, 1] ∧
+    Golib.Gen.Trans.C14.Intersect [9] ([3, 1, 3, 2, 4] : List Int) [2, 2, 1] = .ok [1, 2] := by
+  refine ⟨?_, ?_, ?_⟩ <;> decide +kernel
+
+/-- TIE: the translated `Unique` (the coded "did the map grow" test `uniqueCount < len(seen)`) equals the
+model's `unique` at the non-aliased dst layouts. -/
+theorem c14_trans_Unique (dst s m2 : List Int) (d : Dst) (n1 : Bool) (hd : d = .nil ∨ d = .fresh) :
+    Golib.Gen.Trans.C14.Unique dst s = resOfOption ((unique d n1 ⟨s, m2⟩).map fun r => r.res.xs) ∧
+    (unique d n1 ⟨s, m2⟩).map (fun r => r.mem) = some ⟨s, m2⟩ :=
+  trans_unique dst s m2 d n1 hd
+
+/-- TIE: the translated `UniqueByKey` (the callback is a pure total `Int → Int`, the translator's stated
+assumption) equals the model's `uniqueByKey` at the non-aliased dst layouts. -/
+theorem c14_trans_UniqueByKey (dst s m2 : List Int) (key : Int → Int) (d : Dst) (n1 : Bool) (hd : d = .nil ∨ d = .fresh) :
+    Golib.Gen.Trans.C14.UniqueByKey dst s key = resOfOption ((uniqueByKey key d n1 ⟨s, m2⟩).map fun r => r.res.xs) ∧
+    (uniqueByKey key d n1 ⟨s, m2⟩).map (fun r => r.mem) = some ⟨s, m2⟩ :=
+  trans_uniqueByKey dst s m2 key d n1 hd
+
+/-- The property clause directly on the regenerated definitions: the first occurrence per key, in order. -/
+theorem c14_trans_Unique_spec (dst s : List Int) (key : Int → Int) :
+    Golib.Gen.Trans.C14.Unique dst s = .ok (firstOcc id [] s) ∧
+    Golib.Gen.Trans.C14.UniqueByKey dst s key = .ok (firstOcc key [] s) :=
+  ⟨trans_unique_spec dst s, trans_uniqueByKey_spec dst s key⟩
+
+/-- Non-vacuity: first occurrences in order; by key (parity) only one per class. -/
+example : Golib.Gen.Trans.C14.Unique [9] ([3, 1, 3, 2, 1] : List Int) = .ok [3, 1, 2] ∧
+    Golib.Gen.Trans.C14.UniqueByKey [] ([3, 1, 4, 2] : List Int) (fun v => v % 2) = .ok [3, 4] := by
+  refine ⟨?_, ?_⟩ <;> decide +kernel
+
+/-- TIE: the translated in-place variants (map as set-list, key-only `range` over the written
+parameter, tuple swap, `return s1[:remain]`) equal the models: content of the returned front portion AND
+the argument's memory afterwards, `Res.panic` exactly where the model has `none` (nowhere:
+`c14_inplace_perm`), any nil flag. -/
+theorem c14_trans_DiffInPlaceFirst (n1 : Bool) (s1 s2 : List Int) :
+    Golib.Gen.Trans.C14.DiffInPlaceFirst s1 s2 = resOfOption ((diffInPlaceFirst n1 s1 s2).map ipProj) :=
+  trans_diffInPlaceFirst n1 s1 s2
+
+theorem c14_trans_IntersectInPlaceFirst (n1 : Bool) (s1 s2 : List Int) :
+    Golib.Gen.Trans.C14.IntersectInPlaceFirst s1 s2 = resOfOption ((intersectInPlaceFirst n1 s1 s2).map ipProj) :=
+  trans_intersectInPlaceFirst n1 s1 s2
+
+theorem c14_trans_UniqueInPlace (n1 : Bool) (s : List Int) :
+    Golib.Gen.Trans.C14.UniqueInPlace s = resOfOption ((uniqueInPlace n1 s).map ipProj) :=
+  trans_uniqueInPlace n1 s
+
+theorem c14_trans_UniqueByKeyInPlace (n1 : Bool) (s : List Int) (key : Int → Int) :
+    Golib.Gen.Trans.C14.UniqueByKeyInPlace s key = resOfOption ((uniqueByKeyInPlace key n1 s).map ipProj) :=
+  trans_uniqueByKeyInPlace n1 s key
+
+/-- Non-vacuity: swaps that move elements; the argument afterwards is a permutation with the result in front. -/
+example : Golib.Gen.Trans.C14.DiffInPlaceFirst ([2, 3, 1, 4] : List Int) [2, 1] = .ok ([3, 4], [3, 4, 1, 2]) ∧
+    Golib.Gen.Trans.C14.IntersectInPlaceFirst ([3, 2, 4, 1] : List Int) [2, 1] = .ok ([2, 1], [2, 1, 4, 3]) ∧
+    Golib.Gen.Trans.C14.UniqueInPlace ([3, 3, 1, 3, 2] : List Int) = .ok ([3, 1, 2], [3, 1, 2, 3, 3]) ∧
+    Golib.Gen.Trans.C14.UniqueByKeyInPlace ([3, 1, 4, 2] : List Int) (fun v => v % 2) = .ok ([3, 4], [3, 4, 1, 2]) := by
+  refine ⟨?_, ?_, ?_, ?_⟩ <;> decide +kernel
 
 end Golib.C14
